@@ -8,7 +8,8 @@ CONSTANTS N,           \* number of blocks
           MaxInvalid,  \* at most this many invalid blocks
           MaxLen,      \* deliveries per behaviour
           Tickets,     \* BOOLEAN: explore ticket placement
-          Weights      \* set of weight classes, e.g. {1,2}
+          Weights,     \* set of weight classes, e.g. {1,2}
+          Loaded       \* subset of BOOLEAN: regimes explored (initial loading finished or not)
 
 VARIABLE h    \* history: sequence of delivered block ids
 
@@ -38,7 +39,7 @@ MCInit ==
           /\ Cardinality({b \in Blocks : ~okf[b]}) <= MaxInvalid
           /\ wf[1] = CHOOSE x \in Weights : TRUE
           /\ A = MkA(par, okf, gtf, wf)
-    /\ S = EmptyState
+    /\ \E ld \in Loaded : S = [EmptyState EXCEPT !.loaded = ld]
     /\ w = Idle
     /\ last = [b |-> None, res |-> "none", ok |-> TRUE, same |-> TRUE, det |-> FALSE]
     /\ h = <<>>
@@ -63,7 +64,7 @@ Done == w.pc = "idle" /\ Len(h) = MaxLen
 
 Scenario == [blocks |-> [b \in Blocks |-> [id |-> b, parent |-> A[b].parent, gt |-> A[b].gt,
                                             w |-> A[b].bf[3], ok |-> A[b].ok]],
-             order |-> h]
+             order |-> h, loaded |-> S.loaded]
 
 PrintScenario == Done => PrintT(<<"SCN", ToJson(Scenario)>>)
 
